@@ -915,7 +915,12 @@ class Engine:
     def ev_BoolOp(self, node, env):
         is_and = isinstance(node.op, ast.And)
         if self.spec_mode:
-            vals = [self.truth(self.ev(v, env)) for v in node.values]
+            vals = []
+            for v in node.values:
+                t = self.truth(self.ev(v, env))
+                if isinstance(t, bool) and t == (not is_and):
+                    return t          # python short-circuit on a concrete operand
+                vals.append(t)
             return b_and(*vals) if is_and else b_or(*vals)
         # python semantics: value of the deciding operand; we only need truthiness-preserving results
         last = None
